@@ -1,6 +1,7 @@
 #!/bin/bash
 # tools/seed_eval.sh <Cnn> <seed-id> [tier]: confirm a sub-agent's seeded change (demo passes without it, fails with it,
-# suite passes with it) in a scratch worktree, then run the property's check against it in /repo and always revert.
+# suite passes with it) in a scratch worktree of /repo, then run the property's check against that worktree
+# (VERIF_REPO / VERIF_OUTDIR: neither /repo nor the committed evidence is touched) and remove the worktree.
 set -u
 prop=$1; sid=$2; tier=${3:-quick}
 src=${SRC:-/tmp/wt-$prop/DEMO}; dst=/verif/seeded/$sid
@@ -13,19 +14,19 @@ ev=/tmp/ev-$sid
 git -C /repo worktree remove --force $ev 2>/dev/null
 git -C /repo worktree add -q $ev HEAD || exit 2
 cp $dst/demo_test.go $ev/$dir/zz_demo_test.go
-( cd $ev && go test -vet=off -count=1 -run 'Demo|demo|Seed' ./$dir/ > /tmp/ev-$sid.clean.log 2>&1 ); clean=$?
+( cd $ev && go test -vet=off -count=1 -run 'Demo|demo|Seed|C[0-9][0-9]' ./$dir/ > /tmp/ev-$sid.clean.log 2>&1 ); clean=$?
 ( cd $ev && git apply $dst/patch.diff ) || { echo "patch does not apply"; git -C /repo worktree remove --force $ev; exit 2; }
-( cd $ev && go test -vet=off -count=1 -run 'Demo|demo|Seed' ./$dir/ > /tmp/ev-$sid.mut.log 2>&1 ); mut=$?
+( cd $ev && go test -vet=off -count=1 -run 'Demo|demo|Seed|C[0-9][0-9]' ./$dir/ > /tmp/ev-$sid.mut.log 2>&1 ); mut=$?
 rm $ev/$dir/zz_demo_test.go
 ( cd $ev && go build ./... && go test -vet=off -count=1 ./... > /tmp/ev-$sid.suite.log 2>&1 ); suite=$?
-git -C /repo worktree remove --force $ev
 echo "demo on clean tree: exit $clean (want 0); demo with change: exit $mut (want !=0); suite with change: exit $suite (want 0)"
-if [ -n "$(git -C /repo status --short)" ]; then echo "repo dirty, refusing"; exit 2; fi
-git -C /repo apply $dst/patch.diff || exit 2
-cd /verif && VERIF_TIMEOUT=${VERIF_TIMEOUT:-900} ./verif check $prop --tier $tier > /tmp/ev-$sid.check.log 2>&1; rc=$?
-git -C /repo checkout -- . ; git -C /repo status --short
+out=/verif/.work/seedruns/$sid; rm -rf $out; mkdir -p $out
+cd /verif && VERIF_REPO=$ev VERIF_OUTDIR=$out VERIF_TIMEOUT=${VERIF_TIMEOUT:-900} ./verif check $prop --tier $tier > /tmp/ev-$sid.check.log 2>&1; rc=$?
+git -C /repo worktree remove --force $ev
 grep -E "VIOLATION|OK property|INCONCLUSIVE|^\[C" /tmp/ev-$sid.check.log | head -6
 echo "check exit $rc"
 for f in $(grep -o "replay=[^ ]*" /tmp/ev-$sid.check.log | sed 's/replay=//' | head -2); do python3 -c "
-import json,sys
-d=json.load(open('/verif/$f')); print('  ', d.get('sub'), '|', (d.get('error') or d.get('kind') or '')[:300].replace('\n',' '))" 2>/dev/null; done
+import json,sys,os
+p='$f'
+p=p if os.path.isabs(p) else os.path.join('/verif',p)
+d=json.load(open(p)); print('  ', d.get('sub'), '|', (d.get('error') or d.get('kind') or '')[:300].replace('\n',' '))" 2>/dev/null; done
